@@ -126,11 +126,16 @@ Section Term.
   (* ---------- the fuel bound: 3 * (sum of heights) + 3 ---------- *)
   Fixpoint height (t : tree) : nat := match t with Leaf => O | Nd _ _ l h => S (Nat.max (height l) (height h)) end.
   Definition S3 (a b c : tree) : nat := (height a + height b + height c)%nat.
-  Hypothesis put_total : forall s nd, put s nd <> None.      (* storage never fills: isolates OutOfFuel from StorageFull *)
-  Lemma mk_node_total s v l h : mk_node s v l h <> None.
+  (* `Stops s`: some `put` fails (the crate's "Storage is full") at an invariant-respecting extension of s.  The theorems
+     below say that with enough fuel `ite` returns None ONLY IF a `put` failed on the way. *)
+  Definition Stops (s : st) : Prop := exists s' nd, sext s s' /\ Inv s' /\ put s' nd = None.
+  Lemma Stops_back s s1 : sext s s1 -> Stops s1 -> Stops s.
+  Proof. intros E (s' & nd & E' & HI & Hp). exists s', nd. splits; auto. eapply sext_trans; eauto. Qed.
+  Ltac disc := let X := fresh "X" in intro X; discriminate X.
+  Lemma mk_node_total s v l h : Inv s -> mk_node s v l h = None -> Stops s.
   Proof.
-    unfold mk_node. destruct (if neg h then _ else _) as [[l' h'] n]. destruct (ref_eqb l' h'); [discriminate|].
-    destruct (put s (Node v l' h')) as [[s1 i]|] eqn:E; [discriminate|]. exfalso. eapply put_total; eauto.
+    intro HI. unfold mk_node. destruct (if neg h then _ else _) as [[l' h'] n]. destruct (ref_eqb l' h'); [disc|].
+    destruct (put s (Node v l' h')) as [[s1 i]|] eqn:E; [disc|]. intros _. exists s, (Node v l' h'). splits; auto using sext_refl.
   Qed.
 
   Lemma tc_height s r m t r0 r1 t0 t1 : Inv s -> V s r t -> (t = Leaf \/ m <= top s r) ->
@@ -278,12 +283,12 @@ Section Term.
 
   Definition Term (L : N) (k : nat) (bound : nat) : Prop :=
     forall s a b c ta tb tc, Inv s -> CInv s -> V s a ta -> V s b tb -> V s c tc ->
-      allle L ta -> allle L tb -> allle L tc -> (mu L ta tb tc <= bound)%nat -> ite k s a b c <> None.
+      allle L ta -> allle L tb -> allle L tc -> (mu L ta tb tc <= bound)%nat -> ite k s a b c = None -> Stops s.
 
   (* expansion terminates if calls at strictly smaller measure do *)
   Lemma expand_term L k s f g h tf tg th n : Inv s -> CInv s -> V s f tf -> V s g tg -> V s h th ->
     allle L tf -> allle L tg -> allle L th -> idx f <> 1 -> (mu L tf tg th <= S n)%nat -> Term L k n ->
-    expand_code k s f g h <> None.
+    expand_code k s f g h = None -> Stops s.
   Proof.
     intros HI HC Vf Vg Vh Lf Lg Lh Hf Hmu HT.
     (* the core, for any normalised triple carrying the same trees up to order *)
@@ -301,9 +306,9 @@ Section Term.
           match ite k s1 f1' g1' h1' with None => None | Some (s2, t) =>
           match mk_node s2 m e t with None => None | Some (s3, r) =>
             Some (cput s3 (KIte f1 g2 h2) r, if nn then rneg r else r) end end end
-        end <> None).
+        end = None -> Stops s).
     { intros f1 g2 h2 nn t2 t3 V1 V2 V3 L2 L3 Hf1 Em Emu.
-      destruct (cget s (KIte f1 g2 h2)); [discriminate|].
+      destruct (cget s (KIte f1 g2 h2)); [disc|].
       destruct (mtop_is_minlev L s f1 g2 h2 tf t2 t3 HI V1 V2 V3 Hf1 Lf L2 L3) as [Emin HmL]. rewrite Em in Emin, HmL.
       destruct (mtop_ok s f1 g2 h2 tf t2 t3 HI V1 V2 V3 Hf1) as (Hm0 & Hm1 & Hm2 & Hm3). rewrite Em in *.
       set (m := mtop (top s f) (top s g) (top s h)) in *. cbv zeta.
@@ -316,11 +321,13 @@ Section Term.
       destruct (lev_child L m t3 c0 c1 L3 HmL Ac0 Ac1 Sc) as (Lc0 & Lc1 & Ec0 & Ec1).
       assert (Hmu0 : (mu L a0 b0 c0 <= n)%nat) by (unfold mu in *; rewrite <- Emu in Hmu; rewrite <- Emin in Hmu; lia).
       assert (Hmu1 : (mu L a1 b1 c1 <= n)%nat) by (unfold mu in *; rewrite <- Emu in Hmu; rewrite <- Emin in Hmu; lia).
-      destruct (ite k s f0 g0 h0) as [[s1 e]|] eqn:I1; [|exfalso; eapply (HT s f0 g0 h0 a0 b0 c0); eauto].
+      destruct (ite k s f0 g0 h0) as [[s1 e]|] eqn:I1; [|intros _; eapply (HT s f0 g0 h0 a0 b0 c0); eauto].
       destruct (ite_ok _ _ _ _ _ _ _ _ _ _ HI HC I1 Va0 Vb0 Vc0) as (HI1 & HC1 & E1 & _).
       destruct (ite k s1 f1' g1' h1') as [[s2 t]|] eqn:I2;
-        [|exfalso; eapply (HT s1 f1' g1' h1' a1 b1 c1); eauto using V_ext].
-      destruct (mk_node s2 m e t) as [[s3 r]|] eqn:Mk; [discriminate|]. exfalso. eapply mk_node_total; eauto. }
+        [|intros _; apply (Stops_back s s1 E1); eapply (HT s1 f1' g1' h1' a1 b1 c1); eauto using V_ext].
+      destruct (ite_ok _ _ _ _ _ _ _ _ _ _ HI1 HC1 I2 (V_ext _ _ _ _ E1 Va1) (V_ext _ _ _ _ E1 Vb1) (V_ext _ _ _ _ E1 Vc1)) as (HI2 & _ & E2 & _).
+      destruct (mk_node s2 m e t) as [[s3 r]|] eqn:Mk; [disc|]. intros _.
+      apply (Stops_back s s2 (sext_trans _ _ _ E1 E2)). eapply mk_node_total; eauto. }
     unfold expand_code.
     change (if top s h =? 0 then if top s g =? 0 then top s f else N.min (top s f) (top s g)
             else N.min (if top s g =? 0 then top s f else N.min (top s f) (top s g)) (top s h))
@@ -372,10 +379,10 @@ Section Term.
   Lemma stable_call L n k s f g h tf tg th : Inv s -> CInv s -> V s f tf -> V s g tg -> V s h th ->
     allle L tf -> allle L tg -> allle L th -> (mu L tf tg th <= S n)%nat -> Term L k n ->
     match ite_action s f g h with ARet _ | AExpand => True | _ => False end ->
-    ite (S k) s f g h <> None.
+    ite (S k) s f g h = None -> Stops s.
   Proof.
     intros HI HC Vf Vg Vh Lf Lg Lh Hmu HT Hact. rewrite ite_step.
-    destruct (ite_action s f g h) eqn:A; try contradiction; [discriminate|].
+    destruct (ite_action s f g h) eqn:A; try contradiction; [disc|].
     exact (expand_term L k s f g h tf tg th n HI HC Vf Vg Vh Lf Lg Lh (expand_nonterm s f g h A) Hmu HT).
   Qed.
 
@@ -389,19 +396,19 @@ Section Term.
       { destruct tf as [|v ? ? ?]; [reflexivity|exfalso]. destruct Lf as (Hv & _). unfold mu in Hmu. cbn [lev] in Hmu. lia. }
       subst tf. destruct (top_leaf _ _ HI Vf) as [_ Ei].
       assert (Ht : is_one f || is_zero f = true) by (rewrite term_idx; now apply N.eqb_eq).
-      destruct (is_one f); [discriminate|]. destruct (is_zero f); [discriminate|discriminate].
+      destruct (is_one f); [disc|]. destruct (is_zero f); [disc|discriminate Ht].
     - destruct k as [|[|[|k]]]; try lia.
       assert (T0 : Term L k n) by (apply IH; lia). assert (T1 : Term L (S k) n) by (apply IH; lia). assert (T2 : Term L (S (S k)) n) by (apply IH; lia).
       destruct (top_one s HI) as [To Tz].
       rewrite ite_step. destruct (ite_action s f g h) as [r|f1 g1 h1|f1 g1 h1|] eqn:A.
-      + discriminate.
+      + disc.
       + (* standard triple, then possibly one swap *)
         assert (Hfn : idx f <> 1).
         { unfold ite_action in A. destruct (is_one f) eqn:C1; [discriminate|]. destruct (is_zero f) eqn:C2; [discriminate|]. exact (nonterm_of _ C1 C2). }
         destruct (rewrite_args L s f g h tf tg th f1 g1 h1 HI Vf Vg Vh Lf Lg Lh (or_introl A)) as (t1 & t2 & t3 & V1 & V2 & V3 & L1 & L2 & L3 & Hm1).
         pose proof (std_stable s f g h f1 g1 h1 To Tz Hfn A) as Hst.
         rewrite ite_step. destruct (ite_action s f1 g1 h1) as [r|f2 g2 h2|f2 g2 h2|] eqn:A1; try contradiction.
-        * discriminate.
+        * disc.
         * assert (Hf1n : idx f1 <> 1).
           { unfold ite_action in A1. destruct (is_one f1) eqn:C1; [discriminate|]. destruct (is_zero f1) eqn:C2; [discriminate|]. exact (nonterm_of _ C1 C2). }
           destruct (rewrite_args L s f1 g1 h1 t1 t2 t3 f2 g2 h2 HI V1 V2 V3 L1 L2 L3 (or_intror A1)) as (u1 & u2 & u3 & U1 & U2 & U3 & M1 & M2 & M3 & Hm2).
@@ -417,4 +424,27 @@ Section Term.
       + exact (expand_term L (S (S k)) s f g h tf tg th n HI HC Vf Vg Vh Lf Lg Lh (expand_nonterm s f g h A) Hmu T2).
   Qed.
   Print Assumptions ite_terminates.
+
+  (* the special case of a store that never fills: plain termination *)
+  Corollary ite_terminates_total L n k : (forall s nd, put s nd <> None) -> (3 * n + 3 <= k)%nat ->
+    forall s a b c ta tb tc, Inv s -> CInv s -> V s a ta -> V s b tb -> V s c tc ->
+      allle L ta -> allle L tb -> allle L tc -> (mu L ta tb tc <= n)%nat -> ite k s a b c <> None.
+  Proof.
+    intros Hp Hk s a b c ta tb tc HI HC Va Vb Vc La Lb Lc Hmu Hn.
+    destruct (ite_terminates L n k Hk s a b c ta tb tc HI HC Va Vb Vc La Lb Lc Hmu Hn) as (s' & nd & _ & _ & Hf).
+    exact (Hp s' nd Hf).
+  Qed.
+  (* the measure never exceeds the number of variable levels *)
+  Lemma mu_le L a b c : (mu L a b c <= N.to_nat (L + 1))%nat.
+  Proof. unfold mu. lia. Qed.
+  (* every tree has a level bound *)
+  Fixpoint maxvar (t : tree) : N := match t with Leaf => 0 | Nd v _ l h => N.max v (N.max (maxvar l) (maxvar h)) end.
+  Lemma allle_mono L L' t : L <= L' -> allle L t -> allle L' t.
+  Proof. intro H. induction t as [|v ln l IHl h IHh]; cbn; [auto|]. intros (A & B & C). splits; auto; lia. Qed.
+  Lemma allle_maxvar t : allle (maxvar t) t.
+  Proof.
+    induction t as [|v ln l IHl h IHh]; cbn [allle maxvar]; [exact I|]. splits; [lia| |].
+    - eapply allle_mono; [|exact IHl]. lia.
+    - eapply allle_mono; [|exact IHh]. lia.
+  Qed.
 End Term.
